@@ -107,6 +107,7 @@ class Schedule:
         self.reordered = 0
         self.handoff_violations = []
         self.pending = []
+        self.escaped = 0
 
 
 SCHED = None
@@ -142,9 +143,15 @@ class LazyExecutor:
         return f
 
 
-def lazy_as_completed(futures):
+def lazy_as_completed(futures, timeout=None):
     s = SCHED
     futures = list(futures)
+    if not all(isinstance(f, LazyFuture) for f in futures):
+        # the library obtained a real pool through a reference this driver did not find: a real-pool case, then
+        import concurrent.futures
+        s.escaped += 1
+        yield from concurrent.futures.as_completed(futures, timeout=timeout)
+        return
     i = s.uses
     s.uses += 1
     n = len(futures)
@@ -158,6 +165,11 @@ def lazy_as_completed(futures):
 
 
 def lazy_wait(futures, timeout=None, return_when=None):
+    futures = list(futures)
+    if not all(isinstance(f, LazyFuture) for f in futures):
+        import concurrent.futures
+        return concurrent.futures.wait(futures, timeout=timeout,
+                                       return_when=return_when or concurrent.futures.ALL_COMPLETED)
     done = list(lazy_as_completed(futures))
     return set(done), set()
 
@@ -207,7 +219,7 @@ def lazy_pools(keys):
     shim = _ParallelShim()
     swap = {id(cf.ThreadPoolExecutor): LazyExecutor, id(cf.ProcessPoolExecutor): LazyExecutor,
             id(cf.as_completed): lazy_as_completed, id(cf.wait): lazy_wait, id(cf): shim}
-    saved = []
+    saved, saved_items = [], []
     wrapped = {}
     for mname, mod in list(sys.modules.items()):
         if not (mname == "pyvolutionary" or mname.startswith("pyvolutionary.")) or mod is None:
@@ -218,6 +230,12 @@ def lazy_pools(keys):
             if id(val) in swap:
                 saved.append((mod, attr, val))
                 setattr(mod, attr, swap[id(val)])
+            elif isinstance(val, dict) and not attr.startswith("__"):
+                # a module-level dispatch table (mode -> executor class)
+                for k, v in list(val.items()):
+                    if not isinstance(v, (dict, list)) and id(v) in swap:
+                        saved_items.append((val, k, v))
+                        val[k] = swap[id(v)]
             elif attr == "get_pool_results" and isinstance(val, types.FunctionType):
                 saved.append((mod, attr, val))
                 setattr(mod, attr, wrapped.setdefault(id(val), _checked(val)))
@@ -226,6 +244,8 @@ def lazy_pools(keys):
     finally:
         for mod, attr, val in saved:
             setattr(mod, attr, val)
+        for container, k, v in saved_items:
+            container[k] = v
 
 
 # ---------------------------------------------------------------------------------------------------------
@@ -332,6 +352,8 @@ def judge_lazy(spec, c10_known):
     vio += distinct_initial(spec, obs)
     labels = ["lazy", f"lazy:pool_uses:{min(s.uses, 3)}{'+' if s.uses >= 3 else ''}",
               "lazy:reordered" if s.reordered else "lazy:submission-order"]
+    if s.escaped:
+        labels.append("lazy:library-reached-a-real-pool")
     if spec["optimizer"] in ("FicksLawOptimization", "KrillHerdOptimization", "WildebeestHerdOptimization",
                              "WindDrivenOptimization"):
         g, ran = greedy_equivalence(spec)
